@@ -811,6 +811,9 @@ namespace vf_coll
 
         void run(const std::string& mode, int ops)
         {
+            // when bucket selection (C19) is being decided: a node that is smaller than, or not aligned for, the size it was chosen for
+            // shows as overlapping / misaligned / mis-counted memory of the collection
+            also_scope buckets(cx().prop == "C19" ? "C19" : "", "C01 C02 C18");
             setup();
             if (mode == "phased")
                 run_phased(ops);
